@@ -116,6 +116,11 @@ func genSet(r *vh.Rand, p int) string {
 	for _, c := range callNames {
 		if r.Chance(p) {
 			l = append(l, c)
+			// further goroutines blocked in the SAME call on the same connection
+			max := map[string]int{"accept": 3, "acceptuni": 2, "open": 3, "openuni": 3, "rcvdgram": 2}[c]
+			for k := 2; k <= max && r.Chance(40); k++ {
+				l = append(l, fmt.Sprintf("%s%d", c, k))
+			}
 		}
 	}
 	if len(l) == 0 {
@@ -373,16 +378,20 @@ func (s *side) startBlocked(ctx context.Context, set []string, xfer bool, peer *
 			} else {
 				s.start("write", func() error { _, err := s.wstr.Write(make([]byte, bigWrite)); return err })
 			}
-		case "accept":
-			s.start("accept", func() error { _, err := s.conn.AcceptStream(ctx); return err })
-		case "acceptuni":
-			s.start("acceptuni", func() error { _, err := s.conn.AcceptUniStream(ctx); return err })
-		case "open":
-			s.start("open", func() error { _, err := s.conn.OpenStreamSync(ctx); return err })
-		case "openuni":
-			s.start("openuni", func() error { _, err := s.conn.OpenUniStreamSync(ctx); return err })
-		case "rcvdgram":
-			s.start("rcvdgram", func() error { _, err := s.conn.ReceiveDatagram(ctx); return err })
+		default:
+			name := n
+			switch strings.TrimRight(n, "0123456789") {
+			case "accept":
+				s.start(name, func() error { _, err := s.conn.AcceptStream(ctx); return err })
+			case "acceptuni":
+				s.start(name, func() error { _, err := s.conn.AcceptUniStream(ctx); return err })
+			case "open":
+				s.start(name, func() error { _, err := s.conn.OpenStreamSync(ctx); return err })
+			case "openuni":
+				s.start(name, func() error { _, err := s.conn.OpenUniStreamSync(ctx); return err })
+			case "rcvdgram":
+				s.start(name, func() error { _, err := s.conn.ReceiveDatagram(ctx); return err })
+			}
 		}
 	}
 }
@@ -691,13 +700,17 @@ func runScenario(p params, res *result) {
 		time.Sleep(p.rtt + 5*time.Millisecond)
 	} else if haveServer {
 		// right after the handshake: only calls that need no streams
+		noStreams := func(n string) bool {
+			b := strings.TrimRight(n, "0123456789")
+			return b == "accept" || b == "rcvdgram" || b == "acceptuni"
+		}
 		for _, n := range p.cb {
-			if n == "accept" || n == "rcvdgram" || n == "acceptuni" {
+			if noStreams(n) {
 				cl.startBlocked(bg, []string{n}, false, sv)
 			}
 		}
 		for _, n := range p.sb {
-			if n == "accept" || n == "rcvdgram" || n == "acceptuni" {
+			if noStreams(n) {
 				sv.startBlocked(bg, []string{n}, false, cl)
 			}
 		}
